@@ -408,6 +408,10 @@ def call_values(I, c, args, e=None, env=None):
     if tr in ("Deref", "DerefMut", "Borrow", "AsRef", "BorrowMut", "AsMut") or name in ("as_slice", "as_mut_slice", "each_ref", "each_mut", "to_vec", "into_boxed_slice", "as_ref"):
         return args[0]
     if tr in ("Into", "From") and len(args) == 1:
+        # a conversion implemented in the crate (`impl From<[T; D]> for Vector`) is what its body says; std's are value-preserving
+        lb = local_body(I, c)
+        if lb is not None:
+            return I.run_fn(lb, args, None)
         return args[0]
     if name == "try_into" or name == "try_from":
         return Opt(True, args[0])
@@ -560,6 +564,15 @@ def call_values(I, c, args, e=None, env=None):
     # ---- local function: evaluate its body
     bp = local_body(I, c)
     if bp is not None:
+        # `&mut` parameters receive the reference itself: what the callee writes through it is an effect on the caller's variable
+        raw = getattr(I, "raw_args", None) or []
+        fi_ = None
+        for fn_ in I.f.items["fns"]:
+            if fn_["path"] == bp:
+                fi_ = fn_
+                break
+        if fi_ is not None and len(raw) == len(args) == len(fi_.get("inputs") or []):
+            args = [r_ if (isinstance(r_, PlaceRef) and str(t_).startswith("&mut")) else a_ for a_, r_, t_ in zip(args, raw, fi_["inputs"])]
         return I.run_fn(bp, args, None)
     # a method of a crate-local trait called on a value whose type is known here (inside a default method the call is abstract in
     # `Self`): dispatch to that type's impl
